@@ -78,7 +78,8 @@ def _props_of(v):
     unw = v.get('unwinding')
     what = v.get('what', '')
     if r == 'O1':
-        return {'C04', 'C17'} if unw else {'C02', 'C03', 'C17'}
+        # (an unchecked access past the array is how len() > capacity() comes about: C05 as well)
+        return {'C04', 'C17'} if unw else {'C02', 'C03', 'C05', 'C17'}
     if r in ('O2', 'LEAK', 'DROPALL', 'HANDLE', 'HANDLE-DROP', 'DROPIMPL'):
         s = {'C04', 'C17'} if unw else {'C02', 'C17'}
         if r in ('HANDLE', 'HANDLE-DROP') and not unw:
@@ -111,7 +112,7 @@ def _props_of(v):
 
 # which obligation counters count for which property (evidence only)
 RULE_PROPS = {
-    'O1': {'C02', 'C03', 'C17'}, 'O2': {'C02', 'C17'}, 'LEAK': {'C02'}, 'DROPALL': {'C02'},
+    'O1': {'C02', 'C03', 'C05', 'C17'}, 'O2': {'C02', 'C17'}, 'LEAK': {'C02'}, 'DROPALL': {'C02'},
     'HANDLE': {'C02', 'C05'}, 'HANDLE-DROP': {'C02'}, 'DROPIMPL': {'C02'},
     'INV': {'C02', 'C03', 'C05', 'C17'}, 'ESC-user': {'C04', 'C17'}, 'ESC-own': {'C03', 'C05', 'C17'},
     'STRUCTINV': {'C02', 'C17'}, 'APPEND-AFTER-MISS': {'C05'},
